@@ -33,12 +33,12 @@ type SimNode struct {
 	stop  context.CancelFunc
 	Ident immutable.Option[identity.Identity]
 
-	mu      sync.Mutex
-	updates []event.Update // drained from the bus, in arrival order
-	merges  []event.MergeComplete
+	mu         sync.Mutex
+	updates    []event.Update // drained from the bus, in arrival order
+	merges     []event.MergeComplete
 	subResults []subResult
-	sub     event.Subscription
-	subDone chan struct{}
+	sub        event.Subscription
+	subDone    chan struct{}
 
 	// ServeKeys: how the simulated KMS answers key requests of this node.
 	// nil = answer with no keys.
